@@ -128,33 +128,21 @@ Ltac ver_cases :=
          | Hc : (?v <? ?k) = false |- _ => apply N.ltb_ge in Hc
          end.
 
-(* mvhd: decode on version==1, encode on Version==0: they agree for version <= 1 only *)
+(* mvhd / tkhd: decode and encode both select the 64-bit layout on version == 1 *)
 Lemma lossless_mvhd : leaf_lossless dec_mvhd.
 Proof.
   intros h r l rsv r' Hok H G. unfold dec_mvhd in H. run H. inj_pret H.
-  cbn [leaf_guard] in G. apply N.leb_le in G.
-  destruct (vf_version a =? 1) eqn:Hv.
-  - apply N.eqb_eq in Hv. cbn [body_leaf chunk nth]. rewrite Hv. cbn [N.eqb Pos.eqb].
-    eexists; split; [reflexivity|]; split; [|assumption].
-    rewrite <- Hv, vf_join_split by assumption. repeat rewrite <- app_assoc. reflexivity.
-  - apply N.eqb_neq in Hv. assert (Hv0 : vf_version a = 0) by lia.
-    cbn [body_leaf chunk nth]. rewrite Hv0. cbn [N.eqb].
-    eexists; split; [reflexivity|]; split; [|assumption].
-    rewrite <- Hv0, vf_join_split by assumption. repeat rewrite <- app_assoc. reflexivity.
+  cbn [body_leaf chunk nth].
+  eexists; split; [reflexivity|]; split; [|assumption].
+  rewrite vf_join_split by assumption. repeat rewrite <- app_assoc. reflexivity.
 Qed.
 
 Lemma lossless_tkhd : leaf_lossless dec_tkhd.
 Proof.
   intros h r l rsv r' Hok H G. unfold dec_tkhd in H. run H. inj_pret H.
-  cbn [leaf_guard] in G. apply N.leb_le in G.
-  destruct (vf_version a =? 1) eqn:Hv.
-  - apply N.eqb_eq in Hv. cbn [body_leaf chunk nth]. rewrite Hv. cbn [N.eqb Pos.eqb].
-    eexists; split; [reflexivity|]; split; [|assumption].
-    rewrite <- Hv, vf_join_split by assumption. repeat rewrite <- app_assoc. reflexivity.
-  - apply N.eqb_neq in Hv. assert (Hv0 : vf_version a = 0) by lia.
-    cbn [body_leaf chunk nth]. rewrite Hv0. cbn [N.eqb].
-    eexists; split; [reflexivity|]; split; [|assumption].
-    rewrite <- Hv0, vf_join_split by assumption. repeat rewrite <- app_assoc. reflexivity.
+  cbn [body_leaf chunk nth].
+  eexists; split; [reflexivity|]; split; [|assumption].
+  rewrite vf_join_split by assumption. repeat rewrite <- app_assoc. reflexivity.
 Qed.
 
 Lemma lossless_mdhd : leaf_lossless dec_mdhd.
@@ -229,7 +217,6 @@ Proof.
   intros h r l rsv r' Hok H G. unfold dec_sidx in H. run H.
   apply pbind_ok in H. destruct H as (es & r1 & E & H). inj_pret H.
   many E item_sref.
-  cbn [leaf_guard] in G. apply N.leb_le in G.
   cbn [body_leaf chunk nth]. eexists; split; [reflexivity|]; split; [|assumption].
   rewrite vf_join_split, Hl by assumption.
   destruct (vf_version a =? 0); repeat rewrite <- app_assoc; reflexivity.
